@@ -6,6 +6,10 @@
 (*   #key-2 = K2  verificationMethod + assertionMethod                     *)
 (*   did:example:other#key-f = K3, a FOREIGN-DID method embedded in        *)
 (*                 capabilityInvocation of the holder document             *)
+(*   did:example:other#key-1 = K4, a foreign-DID method with the SAME      *)
+(*                 fragment as the holder's key-1, listed FIRST in         *)
+(*                 verificationMethod: a query that names a DID must be    *)
+(*                 matched on DID and fragment (holder#key-1 is K1)        *)
 (* Two row families: the signature/binding part with all claim conditions  *)
 (* true, and the claims part with the binding part true.                   *)
 (***************************************************************************)
@@ -16,15 +20,18 @@ vars == <<row, out>>
 
 Queries == {"holder#key-1", "#key-1", "key-1", "holder#key-2", "other#key-f", "#key-f", "holder#missing", "other#key-1"}
 KeyOfQuery(q) ==
+  \* a bare fragment is looked up in the relationships first: authentication refers to holder#key-1, so it finds K1 although
+  \* the decoy other#key-1 precedes it in verificationMethod (transcribed from resolve_method, cf. Document.tla Resolve)
   CASE q \in {"holder#key-1", "#key-1", "key-1"} -> "K1"
+    [] q = "other#key-1" -> "K4"
     [] q = "holder#key-2" -> "K2"
     [] q \in {"other#key-f", "#key-f"} -> "K3"
-    [] OTHER -> "none"              \* holder#missing; other#key-1: the DID of a query must match the method's DID
+    [] OTHER -> "none"              \* holder#missing
 ScopesOfKey(k) == CASE k = "K1" -> {"vm", "authentication"} [] k = "K2" -> {"vm", "assertionMethod"}
-                    [] k = "K3" -> {"capabilityInvocation"} [] OTHER -> {}
+                    [] k = "K3" -> {"capabilityInvocation"} [] k = "K4" -> {"vm"} [] OTHER -> {}
 
 SRows == [part : {"S"}, kid : Queries \cup {"absent"}, method_id : {"none", "holder#key-1", "holder#key-2", "other#key-f"},
-          signed_with : {"K1", "K2", "K3"}, scope : {"none", "authentication", "assertionMethod", "capabilityInvocation"},
+          signed_with : {"K1", "K2", "K3", "K4"}, scope : {"none", "authentication", "assertionMethod", "capabilityInvocation"},
           nonce_hdr : {"absent", "a", "b"}, nonce_opt : {"absent", "a", "b"},
           iss : {"holder", "other", "not_a_did"}]
 
@@ -47,9 +54,21 @@ UAccept(r) ==
   /\ r.vp_holder # "different"
   /\ r.vp_id \in {"absent", "equal"}
 
-Evaluate(r) == IF r.part = "S" THEN [accept |-> SAccept(r)] ELSE [accept |-> UAccept(r)]
+\* which bounds the verifier configured; a bound that is not configured defaults to the CURRENT TIME.  Instants are years:
+\* the explicit bounds lie in the past (latest issuance 2001, earliest expiry 2005), "now" is whenever the check runs (2026+)
+TRows == [part : {"T"}, bounds : {"both", "only_latest_issuance", "only_earliest_expiry", "none"},
+          exp : {"absent", "y1999", "y2010", "y2100"}, iat : {"y2000", "y2003", "y2100"}]
+Year(t) == CASE t = "y1999" -> 1999 [] t = "y2000" -> 2000 [] t = "y2003" -> 2003 [] t = "y2010" -> 2010 [] t = "y2100" -> 2100
+Now == 2050                           \* any year between 2010 and 2100 gives the same table
+TAccept(r) ==
+  LET expiry_bound == IF r.bounds \in {"both", "only_earliest_expiry"} THEN 2005 ELSE Now
+      issuance_bound == IF r.bounds \in {"both", "only_latest_issuance"} THEN 2001 ELSE Now IN
+  /\ (r.exp = "absent" \/ Year(r.exp) >= expiry_bound)
+  /\ Year(r.iat) <= issuance_bound
 
-Init == row \in SRows \cup URows /\ out = Evaluate(row)
+Evaluate(r) == IF r.part = "S" THEN [accept |-> SAccept(r)] ELSE IF r.part = "U" THEN [accept |-> UAccept(r)] ELSE [accept |-> TAccept(r)]
+
+Init == row \in SRows \cup URows \cup TRows /\ out = Evaluate(row)
 Next == UNCHANGED vars
 Spec == Init /\ [][Next]_vars
 
